@@ -2,6 +2,13 @@
 //!   vcheck <Cxx> <quick|thorough>      run one property's check
 //!   vcheck --replay <file>             re-evaluate one saved case with plain code
 //!   vcheck selftest                    oracle self-test only
+#[macro_export]
+macro_rules! outln {
+    ($($a:tt)*) => {{
+        use std::io::Write;
+        let _ = writeln!(std::io::stdout(), $($a)*);
+    }};
+}
 mod core;
 mod fastref;
 mod findings;
@@ -33,7 +40,7 @@ fn run(args: &[String]) -> i32 {
     match args.get(1).map(|s| s.as_str()) {
         Some("selftest") => {
             let r = selftest::run(200_000, seed);
-            println!("{}", r.summary);
+            crate::outln!("{}", r.summary);
             if r.ok { 0 } else { 2 }
         }
         Some("--replay") => {
@@ -66,7 +73,7 @@ fn run(args: &[String]) -> i32 {
             // the oracle tests itself first; a failure is "inconclusive", never a violation
             let st = selftest::run(if tier == Tier::Quick { 60_000 } else { 400_000 }, seed);
             if !st.ok {
-                println!("oracle self-test FAILED: {}", st.summary);
+                crate::outln!("oracle self-test FAILED: {}", st.summary);
                 return 2;
             }
             let cfg = Cfg { prop: prop.0, tier, seed };
